@@ -68,7 +68,7 @@ and it stays there: after any number of steps inside the time step the deque is 
 deque - when every activation that was runnable at the moment of the postponement has been taken before it -/
 theorem postponed_runs_after_everything_runnable (w : World Rat) (a : ActId) (fs : List (Frame Rat)) (ha : a < w.acts.size)
     {w' : World Rat} (h : WithinStep (w.doPostpone a fs) w') :
-    ∃ wake k l, w'.pending = (w.pending ++ [⟨a, some wake⟩]).drop k ++ l := by
+    ∃ wake k l, w'.pending = (w.pending ++ [({ target := a, signal := some wake } : Activation)]).drop k ++ l := by
   obtain ⟨_, wake, hp⟩ := postpone_hibernates w a fs ha
   obtain ⟨k, l, hk⟩ := within_time_step_fifo h
   exact ⟨wake, k, l, by rw [hk, hp]⟩
